@@ -176,6 +176,12 @@ func (c *Ctx) Assume(s string) {
 
 // Violate records a violation. Call only after the failing case was confirmed (see Confirm).
 func (c *Ctx) Violate(part, key, desc string, replay any) {
+	// a panic raised by the harness itself (internal wait timed out under load, scenario could not
+	// be built) is never evidence against the code under test
+	if strings.Contains(desc, "panic: harness:") || strings.Contains(key, "harness:") {
+		c.HarnessError("harness panic reported as failure: " + desc)
+		return
+	}
 	c.mu.Lock()
 	defer c.mu.Unlock()
 	for _, v := range c.viols {
